@@ -102,3 +102,25 @@ func InsertComment(file *ast.File, text string, pos token.Pos) {
 	}
 	file.Comments = append(file.Comments, &ast.CommentGroup{List: []*ast.Comment{comment}})
 }
+
+// InsertCommentGroup inserts a comment with the specified text as a comment group
+// of its own at the specified position in file.Comments.
+// Unlike InsertComment it never merges the comment into a neighbouring comment
+// group, no matter how close that group is.
+func InsertCommentGroup(file *ast.File, text string, pos token.Pos) {
+	e := &ast.CommentGroup{List: []*ast.Comment{{Slash: pos, Text: text}}}
+
+	for i := range file.Comments {
+		cg := file.Comments[i]
+		if len(cg.List) == 0 {
+			continue
+		}
+		if pos < cg.Pos() {
+			file.Comments = append(file.Comments, e)
+			copy(file.Comments[i+1:], file.Comments[i:])
+			file.Comments[i] = e
+			return
+		}
+	}
+	file.Comments = append(file.Comments, e)
+}
